@@ -23,13 +23,12 @@
 (* A third, MIRRORED, layer (heap) follows what the pinned code does with  *)
 (* object references: merge_with stores RHS nodes in LHS *by reference*    *)
 (* (merger.py:838 self.data = rhs; :263 lhs[b_key] = b_val; :299 return    *)
-(* rhs; :656 merged_data = rhs) and appends in place (:325/:327).  With    *)
-(* CopyRhs = FALSE it reproduces the code; CopyRhs = TRUE is the repaired  *)
-(* design (every pairwise step receives a private copy of the RHS data).   *)
+(* rhs; :656 merged_data = rhs) and appends in place (:325/:327).  The     *)
+(* state field `copy` selects the design: FALSE reproduces the pinned code,*)
+(* TRUE is the repaired design (every pairwise step receives a private     *)
+(* copy of the RHS data).                                                  *)
 (***************************************************************************)
 EXTENDS Naturals, Sequences, FiniteSets
-
-CONSTANT CopyRhs      \* BOOLEAN: FALSE mirrors the pinned code, TRUE the repaired design
 
 Modes    == {"condense_all", "merge_across", "matrix_merge"}
 Kinds    == {"full", "bare", "empty"}
@@ -88,7 +87,8 @@ WithList(prov, kinds) == SelectSeq(prov, LAMBDA k : kinds[k] = "full")
 HInit(kinds) ==
   [dp |-> [k \in 1..Len(kinds) |-> IF kinds[k] = "empty" THEN 0 ELSE k],
    dc |-> [k \in 1..Len(kinds) |-> [keys |-> {k}, shared |-> k, lp |-> IF kinds[k] = "full" THEN k ELSE 0]],
-   lc |-> [k \in 1..Len(kinds) |-> <<k>>]]
+   lc |-> [k \in 1..Len(kinds) |-> <<k>>],
+   div |-> FALSE]      \* TRUE once a step would never return (a list appended to itself, :302/:327)
 
 HContentOfCell(h, c) ==
   IF c = 0 THEN Null
@@ -119,7 +119,9 @@ HMergeCell(h, a, rb, pol) ==
   ELSE IF pol.hashes = "right" THEN [h EXCEPT !.dp[a] = rb]      \* :656 merged_data = rhs
   ELSE LET ca == h.dp[a]  A == h.dc[ca]  B == h.dc[rb]
            h1 == [h EXCEPT !.dc[ca].keys = A.keys \cup B.keys, !.dc[ca].shared = B.shared]
-       IN IF B.lp = 0 THEN h1
+       IN IF B.lp # 0 /\ A.lp = B.lp /\ pol.arrays = "all"
+            THEN [h1 EXCEPT !.div = TRUE]    \* `for ele in rhs: lhs.append(ele)` with lhs is rhs: never ends
+          ELSE IF B.lp = 0 THEN h1
           ELSE IF A.lp = 0 THEN [h1 EXCEPT !.dc[ca].lp = B.lp]   \* :263 lhs[b_key] = b_val (shared list object)
           ELSE CASE pol.arrays = "left"  -> h1
                  [] pol.arrays = "right" -> [h1 EXCEPT !.dc[ca].lp = B.lp]              \* :299 return rhs
@@ -129,9 +131,9 @@ HMergeCell(h, a, rb, pol) ==
                       IN [u.h EXCEPT !.dc[ca].lp = u.cur]
 
 \* accumulator Merger a .merge_with( Merger b .data )
-HMerge(h, a, b, pol) ==
+HMerge(h, a, b, pol, copy) ==
   IF h.dp[b] = 0 THEN h
-  ELSE IF CopyRhs THEN HMergeCell(HCopy(h, h.dp[b]), a, Len(h.dc) + 1, pol)
+  ELSE IF copy THEN HMergeCell(HCopy(h, h.dp[b]), a, Len(h.dc) + 1, pol)
   ELSE HMergeCell(h, a, h.dp[b], pol)
 
 (***************************************************************************)
@@ -209,8 +211,8 @@ Settle(s) ==
     THEN Settle([s EXCEPT !.pc = "RUN", !.lone = TRUE, !.rhs = <<>>, !.phase = "L", !.i = 2, !.j = 1])  \* :548
   ELSE s
 
-MInit(mode, pol, files, kinds) ==
-  [pc |-> "START", mode |-> mode, pol |-> pol, files |-> files, kinds |-> kinds, f |-> 0,
+MInit(mode, pol, files, kinds, copy) ==
+  [pc |-> "START", mode |-> mode, pol |-> pol, copy |-> copy, files |-> files, kinds |-> kinds, f |-> 0,
    lhs |-> <<>>, rhs |-> <<>>, phase |-> "-", i |-> 0, j |-> 0, nmerge |-> 0, lone |-> FALSE, n |-> 0,
    heap |-> HInit(kinds), out |-> <<>>]
 
@@ -235,26 +237,26 @@ MStep(s, e) ==
     [] e.kind = "CondenseLhs" ->                                                     \* :392-394
          IF s.pc = "RUN" /\ s.mode = "condense_all" /\ s.phase = "L" /\ e.i = s.i /\ e.pol = s.pol
          THEN Settle([s EXCEPT !.lhs[1] = @ \o s.lhs[e.i], !.i = @ + 1, !.n = @ + 1,
-                               !.heap = HMerge(@, Acc(s, 1), Acc(s, e.i), s.pol)])
+                               !.heap = HMerge(@, Acc(s, 1), Acc(s, e.i), s.pol, s.copy)])
          ELSE Reject(s)
     [] e.kind = "CondenseRhs" ->                                                     \* :407-409
          IF s.pc = "RUN" /\ s.mode = "condense_all" /\ s.phase = "R" /\ e.j = s.j /\ e.pol = s.pol
          THEN Settle([s EXCEPT !.lhs[1] = Append(@, s.rhs[e.j]), !.j = @ + 1, !.n = @ + 1,
-                               !.heap = HMerge(@, Acc(s, 1), s.rhs[e.j], s.pol)])
+                               !.heap = HMerge(@, Acc(s, 1), s.rhs[e.j], s.pol, s.copy)])
          ELSE Reject(s)
     [] e.kind = "Across" ->                                                          \* :436
          IF s.pc = "RUN" /\ s.mode = "merge_across" /\ e.i = s.i /\ e.j = s.i /\ s.i <= Len(s.lhs) /\ e.pol = s.pol
          THEN Settle([s EXCEPT !.lhs[e.i] = Append(@, s.rhs[e.i]), !.i = @ + 1, !.n = @ + 1,
-                               !.heap = HMerge(@, Acc(s, e.i), s.rhs[e.i], s.pol)])
+                               !.heap = HMerge(@, Acc(s, e.i), s.rhs[e.i], s.pol, s.copy)])
          ELSE Reject(s)
     [] e.kind = "AcrossAppend" ->                                                    \* :432-434
-         IF s.pc = "RUN" /\ s.mode = "merge_across" /\ e.i = s.i /\ s.i > Len(s.lhs)
+         IF s.pc = "RUN" /\ s.mode = "merge_across" /\ e.i = s.i /\ s.i > Len(s.lhs) /\ e.j = Len(s.lhs) + 1
          THEN Settle([s EXCEPT !.lhs = Append(@, <<s.rhs[e.i]>>), !.i = @ + 1])
          ELSE Reject(s)
     [] e.kind = "Matrix" ->                                                          \* :453-456
          IF s.pc = "RUN" /\ s.mode = "matrix_merge" /\ e.i = s.i /\ e.j = s.j /\ e.pol = s.pol
          THEN Settle([s EXCEPT !.lhs[e.i] = Append(@, s.rhs[e.j]), !.j = @ + 1, !.n = @ + 1,
-                               !.heap = HMerge(@, Acc(s, e.i), s.rhs[e.j], s.pol)])
+                               !.heap = HMerge(@, Acc(s, e.i), s.rhs[e.j], s.pol, s.copy)])
          ELSE Reject(s)
     [] e.kind = "Output" ->                                                          \* main():551-552
          IF s.pc = "IDLE" /\ s.f = Len(s.files)
@@ -270,7 +272,7 @@ NextEvent(s) ==
   ELSE IF s.mode = "condense_all" THEN
          (IF s.phase = "L" THEN Ev("CondenseLhs", 0, s.i, 0, <<>>, s.pol) ELSE Ev("CondenseRhs", 0, 0, s.j, <<>>, s.pol))
   ELSE IF s.mode = "merge_across" THEN
-         (IF s.i > Len(s.lhs) THEN Ev("AcrossAppend", 0, s.i, 0, <<>>, s.pol) ELSE Ev("Across", 0, s.i, s.i, <<>>, s.pol))
+         (IF s.i > Len(s.lhs) THEN Ev("AcrossAppend", 0, s.i, Len(s.lhs) + 1, <<>>, s.pol) ELSE Ev("Across", 0, s.i, s.i, <<>>, s.pol))
   ELSE Ev("Matrix", 0, s.i, s.j, <<>>, s.pol)
 
 \* what the recorder sees when stream f is loaded
@@ -331,10 +333,13 @@ ThPolicy(s) ==
       ELSE c = Src(IF s.pol.hashes = "left" THEN v[1] ELSE v[Len(v)], IF s.pol.hashes = "left" THEN s.kinds[v[1]] ELSE s.kinds[v[Len(v)]])
 
 \* the mirrored object graph agrees with the value semantics (FAILS for matrix_merge in the
-\* pinned design CopyRhs = FALSE: an RHS document is modified through an alias before it is reused)
+\* pinned design copy = FALSE: an RHS document is modified through an alias before it is reused)
 ThHeapAgrees(s) ==
   s.pc \in {"IDLE", "RUN", "DONE"} =>
     \A p \in 1..Len(s.lhs) : HContent(s.heap, Acc(s, p)) = Content(s.lhs[p], s.kinds, s.pol)
+\* every pairwise step returns (FAILS for matrix_merge in the pinned design: a list that reached an
+\* accumulator by reference is merged into it again and is then appended to itself for ever)
+ThTerminates(s) == ~s.heap.div
 \* every right-hand document is still pristine when it is about to be merged
 StillNeeded(s, q) ==
   CASE s.mode = "condense_all" -> s.phase = "L" \/ q >= s.j
